@@ -64,6 +64,9 @@ type Buffer struct {
 	committed        bool
 	desc             ociregistry.Descriptor
 	commitErr        error
+	// committedBuf holds the content as it was when it was
+	// successfully checked by Commit. Later writes don't affect it.
+	committedBuf []byte
 }
 
 // NewBuffer returns a buffer that calls commit with the
@@ -112,7 +115,7 @@ func (b *Buffer) GetBlob() (ociregistry.Descriptor, []byte, error) {
 	if b.commitErr != nil {
 		return ociregistry.Descriptor{}, nil, b.commitErr
 	}
-	return b.desc, b.buf, nil
+	return b.desc, b.committedBuf, nil
 }
 
 // setStartOffset sets the offset that the next call to Write
@@ -192,6 +195,8 @@ func (b *Buffer) checkCommit(dig ociregistry.Digest) (err error) {
 		Digest:    dig,
 		Size:      int64(len(b.buf)),
 	}
+	// Limit the capacity so that a later Write can't append in place.
+	b.committedBuf = b.buf[:len(b.buf):len(b.buf)]
 	b.committed = true
 	return nil
 }
